@@ -1,9 +1,9 @@
-\* probe
+\* quick: one leaser, two sessions, every call, every answer class, every environment action; one script per explored edge (ClusterIDSetOnce is checked in MC_ConsulLease_asis_cid / _cas)
 SPECIFICATION Spec
 CONSTANTS
   Nodes = {"n1"}
   MaxSess = 2
-  Ops = {"acquire","acqx","renew","close","info","cid","setcid","handoff"}
+  Ops = {"acquire","acqx","renew","close","info","cid","setcid"}
   Faults = {"err","lost","stale"}
   EnvActs = {"expire","delay","xacq","xcid","xhand"}
   UseCAS = FALSE
